@@ -25,7 +25,13 @@ def filler(rng, n, alphabet):
 
 def long_stem(rng, tag, total_len, alphabet="ascii"):
     n = total_len - len(tag) - 1
-    return tag + filler(rng, max(n, 1), alphabet) + b"|"
+    s = bytearray(tag + filler(rng, max(n, 1), alphabet) + b"|")
+    if alphabet == "bytes" and rng.random() < 0.4:
+        # extreme bytes exactly at the edges of the 74-byte block payloads (last byte of a block, first of the next)
+        for edge in (73, 74, 147, 148, 221, 222):
+            if edge < len(s) - 1 and rng.random() < 0.6:
+                s[edge] = rng.choice([0x00, 0x00, 0xff, 0x20, 0x0a])
+    return bytes(s)
 
 
 class Universe(object):
@@ -34,6 +40,7 @@ class Universe(object):
     def __init__(self, rng, profile):
         self.rng = rng
         self.profile = profile
+        self.twin_sets = []
         p = profile
         self.schemes = [b"s:http|", b"s:https|"] + ([b"s:ftp|"] if rng.random() < 0.2 else [])
         if p.get("long", 0) and rng.random() < p.get("longfirst", 0.2):
@@ -59,6 +66,7 @@ class Universe(object):
                 for c in rng.sample([b"0", b"z", b"A", b"~"], 2):
                     if x[i:i + 1] != c:
                         paths.append(x[:i] + c + x[i + 1:])
+                        self.twin_sets.append((x, paths[-1]))
         if p.get("prefixy", 0) and rng.random() < p["prefixy"]:
             paths += [b"p:a", b"p:a\x00|", b"p:a{|", b"p:a}|"]      # byte-prefixes around '|'
             paths = [x if x.endswith(b"|") else x + b"b|" for x in paths]
@@ -79,6 +87,12 @@ class Universe(object):
             l = self.draw_lru()
             if l not in self.lrus:
                 self.lrus.append(l)
+        # twins are siblings: both beneath the same parent, in the pool
+        for x, y in self.twin_sets[:2]:
+            base = rng.choice(self.schemes) + b"".join(self.draw_hosts() or [self.tlds[0]])
+            for z in (x, y):
+                if base + z not in self.lrus:
+                    self.lrus.insert(rng.randrange(len(self.lrus) + 1), base + z)
 
     def draw_hosts(self):
         rng = self.rng
